@@ -65,14 +65,21 @@ pub fn run(args: &[String]) {
             let m = if (id / 40) % 2 == 0 { Method::DOPRI5 } else { Method::DOP853 };
             (Kind::Stiff, m, Prob::new(Kind::Stiff), 2, 12.0, false, 0.0, 12.0, 1.0)
         } else { (kind, method, p, n, span, back, x0, xend, sgn) };
-        let (rtol, atol, vector_tol) = if stiff_exit { (vec![1e-5; 2], vec![1e-8; 2], false) } else { (rtol, atol, vector_tol) };
-        let (first, maxstep, nmax) = if stiff_exit { (None, None, 100_000) } else { (first, maxstep, nmax) };
+        // directed: the solution overflows although the right-hand side stays finite (the non-finite-candidate guard)
+        let huge = id % 40 == 11;
+        let (kind, method, p, n, span, x0, xend, sgn) = if huge {
+            let m = [Method::RK23, Method::DOPRI5, Method::DOP853][(id / 40) % 3];
+            let e: f64 = if (id / 120) % 2 == 0 { 10.0 } else { -10.0 };
+            (Kind::Huge, m, Prob::new(Kind::Huge), 2, 10.0, 0.0, e, e.signum())
+        } else { (kind, method, p, n, span, x0, xend, sgn) };
+        let (rtol, atol, vector_tol) = if stiff_exit { (vec![1e-5; 2], vec![1e-8; 2], false) } else if huge { (vec![1e-3; 2], vec![1e-6; 2], false) } else { (rtol, atol, vector_tol) };
+        let (first, maxstep, nmax) = if stiff_exit { (None, None, 100_000) } else if huge { (Some([1.0, 0.25, 10.0][(id / 40) % 3]), None, 100_000) } else { (first, maxstep, nmax) };
         let _ = back;
         let h4 = sgn * span / (3.0 + rng.below(40) as f64 + if rng.chance(0.5) { 0.37 } else { 0.0 });
         // script
         let mut script: Vec<(usize, Reply)> = vec![];
         let mut script_s: Vec<String> = vec![];
-        for _ in 0..(if stiff_exit { 0 } else { rng.below(3) }) {
+        for _ in 0..(if stiff_exit || huge { 0 } else { rng.below(3) }) {
             let k = rng.below(12);
             if script.iter().any(|(j, _)| *j == k) { continue; }
             if rng.chance(0.35) { script.push((k, Reply::Interrupt)); script_s.push(format!("{}:I", k)); }
